@@ -65,7 +65,8 @@ fn run_reader<R: Read>(enc: Enc, ty: &Ty, rdr: TokenReader<R>) -> (String, bool)
     };
     match r {
         Ok(v) => (v, false),
-        Err(e) => { let m = e.to_string(); (err_class(&m), m.contains("max buffer size")) }
+        // BufferFull is recognised by error KIND (message texts are free to change)
+        Err(e) => { let full = matches!(e.kind(), jomini::ErrorKind::BufferFull); (err_class(&e.to_string()), full) }
     }
 }
 
@@ -1186,9 +1187,9 @@ fn exec_paths(w: &[&str], obs: &mut Obs) -> Option<String> {
             let steps = if step == usize::MAX { vec![] } else { vec![crate::sched::Step::Repeat(step)] };
             let rd = crate::sched::SchedReader::new(&d, steps);
             let tr = jomini::text::TokenReader::builder().buffer_len(cap).build(rd);
-            let r = if utf8 { let mut de = jomini::TextDeserializer::from_utf8_reader(tr); crate::tyseed::TySeed(&ty).deserialize(&mut de).map_err(|e| e.to_string()) }
-                    else { let mut de = jomini::TextDeserializer::from_windows1252_reader(tr); crate::tyseed::TySeed(&ty).deserialize(&mut de).map_err(|e| e.to_string()) };
-            let full = r.as_ref().err().map(|e| e.to_lowercase().contains("buffer")).unwrap_or(false);
+            let mut full = false;
+            let r = if utf8 { let mut de = jomini::TextDeserializer::from_utf8_reader(tr); crate::tyseed::TySeed(&ty).deserialize(&mut de).map_err(|e| { full = matches!(e.kind(), jomini::ErrorKind::BufferFull); e.to_string() }) }
+                    else { let mut de = jomini::TextDeserializer::from_windows1252_reader(tr); crate::tyseed::TySeed(&ty).deserialize(&mut de).map_err(|e| { full = matches!(e.kind(), jomini::ErrorKind::BufferFull); e.to_string() }) };
             if !full && show(&r) != show(&tape) && !(show(&r).starts_with("err") && show(&tape).starts_with("err")) {
                 obs.violation("paths-disagree-extra-types", &w.join(" "), &format!("tape {} reader(cap {}, step {}) {}", show(&tape), cap, step, show(&r)));
                 break;
